@@ -92,6 +92,17 @@ def run_check(pid, tier, seed, replay, t0):
     spec = audit.load_properties().get(pid, {})
     forb = [h for h in pa['forbidden'] if any(h.startswith(m.replace('.', '/') + '.lean') for m in spec.get('modules', []))]
 
+    # thorough: re-check the compiled property modules with Lean's independent checker
+    leanchecker = None
+    if tier == 'thorough' and spec.get('modules'):
+        import subprocess
+        t1 = time.time()
+        p = subprocess.run(['lake', 'env', 'leanchecker'] + spec['modules'], cwd=audit.LEAN_DIR, capture_output=True, text=True)
+        leanchecker = {'modules': spec['modules'], 'rc': p.returncode, 'wall_s': round(time.time() - t1, 1),
+                       'output': (p.stdout + p.stderr)[-500:]}
+        if p.returncode != 0:
+            proof_broken = proof_broken + ['leanchecker:' + ','.join(spec['modules'])]
+
     # 3: correspondence + acceptor --------------------------------------------
     mod = importlib.import_module('props.' + pid.lower())
     rng = random.Random('%s-%d' % (pid, seed))
@@ -127,6 +138,7 @@ def run_check(pid, tier, seed, replay, t0):
             'trusted_base': TRUSTED_BASE,
             'theorems': pa['theorems'],
             'lean_source_hash': pa['source_hash'],
+            'leanchecker': leanchecker,
             'evaluations': res.get('evaluations', 0),
             'distinct_nontrivial': res.get('distinct_nontrivial', 0),
             'rule': res.get('rule', ''),
